@@ -8,6 +8,7 @@ import (
 	"go/token"
 	"go/types"
 	"math/big"
+	"os"
 	"sort"
 	"strings"
 
@@ -2051,6 +2052,9 @@ func (ex *Exec) havocAllKeep(h *Heap, guard Term, loop ...*Loop) *Heap {
 		for v, ref := range e.vals {
 			a, isAlloc := v.(*ssa.Alloc)
 			if !isAlloc || !(privateAlloc(a) || readOnlyCaptured(a)) {
+				if isAlloc && os.Getenv("GOVC_DEBUG_PRIV") != "" {
+					fmt.Fprintf(os.Stderr, "not kept: %s %s in %s\n", a.Name(), a.Comment, a.Parent().Name())
+				}
 				continue
 			}
 			et := a.Type().(*types.Pointer).Elem()
